@@ -179,3 +179,52 @@ PROPS["C10"] = dict(
     assumptions=["the modelled context fields are those of rux.Context at the pinned commit; the struct's field list is compared on every run (constants item context-fields)",
                  "dynamic-route parameters are exercised through Params writes here and through C02/C07 for matching"],
 )
+
+_RT_TRUSTED = ["modelled, not verified: Go's regexp engine (leftmost-first backtracking semantics on the parser subset of RxParse.v; patterns whose regex text is outside the subset are reported 'unsupported' and only explored by the direct oracle), strings.NewReplacer (leftmost, argument order), Go maps (association lists)",
+               "spec judges for the rt cases (ocaml/rt.ml) are hand-written OCaml on top of the extracted parse_pat / pat_matches / pat_params / spec_select functions"]
+
+PROPS["C01"] = dict(
+    n=dict(quick=1500, thorough=40000),
+    consts=["any-methods", "global-vars", "any-match"],
+    rule="case = table of 1..10 routes (static paths and patterns from an AST generator: literal segments over a small shared pool incl. a.b / v1.0, {v}, "
+         "{v:re} with 12 regex kinds, global variables, literal prefix/suffix inside a segment, 0..2 nested optional tails), any subset of the 9 methods, "
+         "optional StrictLastSlash / cache; 12 Router.Match probes: instantiations of the table's own patterns (85% valid values), single-edit mutations, a few "
+         "hostile strings. Observed: which route is selected. Non-trivial = distinct table with >= 2 routes and >= 2 hits.",
+    trusted_base=_RT_TRUSTED,
+    assumptions=["route tables within the documented grammar (definitions outside it are skipped by the spec judge and still compared with the model)"],
+)
+PROPS["C02"] = dict(
+    n=dict(quick=1500, thorough=40000),
+    consts=["global-vars", "any-match"],
+    rule="case = table of 1..6 routes as for C01, cache on (capacity 0..4) in half of the cases; probes through Router.Match and ServeHTTP (Context.Params inside "
+         "the handler), a third of them repeated so that cache hits occur. For the route the implementation selected, its parameters are compared with the "
+         "captures of that route's pattern. Non-trivial = distinct table with >= 2 routes and >= 2 hits.",
+    trusted_base=_RT_TRUSTED,
+    assumptions=["assume-guarantee: route selection is taken from the implementation (C01 decides it)"],
+)
+PROPS["C06"] = dict(
+    n=dict(quick=1500, thorough=40000),
+    consts=["any-methods"],
+    rule="case = table as for C01 (+ '/*' routes for all / one / two methods) x random combination of StrictLastSlash, HandleMethodNotAllowed, HandleFallbackRoute, "
+         "caching, InterceptAll(p in several spellings) x custom or default NotFound/NotAllowed x 14 probes (table methods, HEAD, OPTIONS, unknown/lower-case "
+         "methods) through Router.Match and ServeHTTP. Observed: resolution (route / allowed set / not found), status, Allow header, who ran. "
+         "Non-trivial = distinct table with >= 2 routes and >= 2 hits.",
+    trusted_base=_RT_TRUSTED, assumptions=[],
+)
+PROPS["C07"] = dict(
+    n=dict(quick=600, thorough=20000),
+    consts=[],
+    rule="case = table as for C01, cache capacity in {0,1,2,3,1000}, optional 405 handling / fallback / strict; history of 20..60 requests (Match and ServeHTTP) drawn "
+         "with repetition from a pool of 2..8 URLs (incl. HEAD); every step is executed on the caching router and on a non-caching twin. "
+         "Non-trivial = distinct history with at least one eviction and one repeated cache state.",
+    trusted_base=_RT_TRUSTED, assumptions=["handlers treat Params as read-only and registration is finished before the first request (the property's quantifier)"],
+)
+PROPS["C13"] = dict(
+    n=dict(quick=3000, thorough=60000),
+    consts=["any-methods", "abort-index"],
+    rule="case = 0..3 well-formed routes + 0..4 definitions from a malformed-pattern stream (unbalanced braces/brackets, capturing groups, optional part not at the end, "
+         "uncompilable regexes, stray metacharacters, mutations) with near-miss method names and occasional nil handlers, random options (incl. caching without "
+         "routes, InterceptAll), 12 hostile lookups (empty, white-space, non-UTF-8, very long, encoded). Observed: accept/reject per definition, panic per lookup. "
+         "Non-trivial = distinct case with accepted and rejected definitions.",
+    trusted_base=_RT_TRUSTED, assumptions=[],
+)
